@@ -1,14 +1,14 @@
 SPECIFICATION MCSpec
 CONSTANTS Depth = 0
-          MaxBlk = 2
+          MaxBlk = 3
           RestartLen = 2
-          MaxSize = 18
-          BitmapSize = 34
-          Ids = {1, 2, 3, 4, 5}
-          Exts <- ExtsSmall
-          Filters = {0, 1, 2, 33, 17}
-          Limits = {0, 3}
-          Tails = {3, 5}
+          MaxSize = 11
+          BitmapSize = 0
+          Ids = {1, 2, 3, 4, 5, 6, 200}
+          Exts <- ExtsNone
+          Filters = {}
+          Limits = {0, 2, 4, 200}
+          Tails = {3, 5, 201}
 INVARIANTS DbWellFormed SetSemantics WriterConsistent SessionSemantics RoundTrip ReadCorrect IterCorrect FilterSound PruneSafeAll
 CONSTRAINT Bounded
 VIEW View
